@@ -47,25 +47,26 @@ func (k Kind) IsScalar() bool   { return k >= Str && k <= FltOpt }
 
 // OptDef declares one option.
 type OptDef struct {
-	Name      string   `json:"name"`
-	Aliases   []string `json:"aliases,omitempty"`
-	Kind      Kind     `json:"kind"`
-	DefB      bool     `json:"defb,omitempty"`
-	DefI      int      `json:"defi,omitempty"`
-	DefF      float64  `json:"deff,omitempty"`
-	DefS      string   `json:"defs,omitempty"`
-	Min       int      `json:"min,omitempty"`
-	Max       int      `json:"max,omitempty"`
-	Required  bool     `json:"required,omitempty"`
-	ReqMsg    string   `json:"reqmsg,omitempty"`
-	Env       string   `json:"env,omitempty"`
-	Var       bool     `json:"var,omitempty"` // declare through the *Var form
-	SetCalled bool     `json:"setcalled,omitempty"`
-	Suggested []string `json:"suggested,omitempty"`
-	Valid     []string `json:"valid,omitempty"`
-	SuggestFn bool     `json:"suggestfn,omitempty"`
-	Desc      string   `json:"desc,omitempty"`
-	ArgName   string   `json:"argname,omitempty"`
+	Name       string   `json:"name"`
+	Aliases    []string `json:"aliases,omitempty"`
+	Kind       Kind     `json:"kind"`
+	DefB       bool     `json:"defb,omitempty"`
+	DefI       int      `json:"defi,omitempty"`
+	DefF       float64  `json:"deff,omitempty"`
+	DefS       string   `json:"defs,omitempty"`
+	Min        int      `json:"min,omitempty"`
+	Max        int      `json:"max,omitempty"`
+	Required   bool     `json:"required,omitempty"`
+	ReqMsg     string   `json:"reqmsg,omitempty"`
+	Env        string   `json:"env,omitempty"`
+	Var        bool     `json:"var,omitempty"` // declare through the *Var form
+	SetCalled  bool     `json:"setcalled,omitempty"`
+	Suggested  []string `json:"suggested,omitempty"`
+	Valid      []string `json:"valid,omitempty"`
+	SuggestFn  bool     `json:"suggestfn,omitempty"`
+	Desc       string   `json:"desc,omitempty"`
+	ArgName    string   `json:"argname,omitempty"`
+	SplitAlias bool     `json:"split_alias,omitempty"` // one opt.Alias(...) modifier per alias instead of a single call
 }
 
 // CmdDef declares one command level (the root is a CmdDef too).
@@ -89,8 +90,9 @@ type Def struct {
 	Mode         int      `json:"mode"`    // 0 normal, 1 bundling, 2 singleDash
 	Unknown      int      `json:"unknown"` // 0 fail, 1 warn, 2 pass
 	RequireOrder bool     `json:"require_order,omitempty"`
-	LateMode     bool     `json:"late_mode,omitempty"` // SetMode is called after all options and commands have been declared
-	Help         string   `json:"help,omitempty"`      // name of the help command/option, "" = none
+	LateMode     bool     `json:"late_mode,omitempty"`  // SetMode is called after all options and commands have been declared
+	EarlyHelp    bool     `json:"early_help,omitempty"` // Help() is rendered (and discarded) after every declaration step
+	Help         string   `json:"help,omitempty"`       // name of the help command/option, "" = none
 	HelpAliases  []string `json:"help_aliases,omitempty"`
 }
 
@@ -338,6 +340,10 @@ func (p *Prog) build(l *level) {
 	}
 	for i := range d.Opts {
 		l.opts = append(l.opts, declare(opt, &d.Opts[i], l.path, p))
+		if p.Def.EarlyHelp {
+			_ = opt.Help()
+			_ = p.Root.opt.Help(getoptions.HelpSynopsis)
+		}
 	}
 	for _, cd := range d.Cmds {
 		child := &level{def: cd, parent: l, opt: opt.NewCommand(cd.Name, cd.Desc)}
@@ -348,6 +354,10 @@ func (p *Prog) build(l *level) {
 		}
 		l.kids = append(l.kids, child)
 		p.build(child)
+		if p.Def.EarlyHelp {
+			_ = opt.Help()
+			_ = child.opt.Help()
+		}
 	}
 }
 
@@ -355,7 +365,13 @@ func declare(opt *getoptions.GetOpt, o *OptDef, path string, p *Prog) *optHandle
 	h := &optHandle{def: o, path: path + "/" + o.Name}
 	var fns []getoptions.ModifyFn
 	if len(o.Aliases) > 0 {
-		fns = append(fns, opt.Alias(o.Aliases...))
+		if o.SplitAlias {
+			for _, a := range o.Aliases {
+				fns = append(fns, opt.Alias(a))
+			}
+		} else {
+			fns = append(fns, opt.Alias(o.Aliases...))
+		}
 	}
 	if o.Required {
 		if o.ReqMsg != "" {
@@ -546,7 +562,13 @@ func guard(f func()) (panicked string, hang bool) {
 // Run executes Parse (and Dispatch when dispatch is set and Parse succeeded).
 func (p *Prog) Run(argv []string, dispatch bool) *Outcome {
 	o := &Outcome{}
-	verifrt.SetTickBudget(tickBudget)
+	// loop budget: generous for ordinary inputs, and growing with the square of the input size so that
+	// work that is merely quadratic in a 10^4-byte token is not mistaken for a hang
+	n := int64(len(os.Getenv("COMP_LINE")))
+	for _, a := range argv {
+		n += int64(len(a))
+	}
+	verifrt.SetTickBudget(2*tickBudget + 4*n*n)
 	defer verifrt.SetTickBudget(0)
 	var rem []string
 	var err error
